@@ -166,7 +166,11 @@ func verifC09Servers(maxLen int) {
 	fam := verifChoose("family", len(verifFamilies))
 	templates := verifFamilies[fam]
 	doc, ops := verifDoc(templates, verifChoose("postOn", len(templates)))
-	sv := 1 + verifChoose("servers", 4)
+	sv := 1 + verifChoose("servers", 5)
+	enumOnly := sv == 5 // as 3, the variable restricted to an enum
+	if enumOnly {
+		sv = 3
+	}
 	switch sv {
 	case 4:
 		// one server's base path is a prefix of the other's
@@ -177,6 +181,9 @@ func verifC09Servers(maxLen int) {
 		doc.Servers = openapi3.Servers{{URL: "https://h.example/v1"}}
 	case 3:
 		doc.Servers = openapi3.Servers{{URL: "https://h.example/{b}", Variables: map[string]*openapi3.ServerVariable{"b": {Default: "v1"}}}}
+		if enumOnly {
+			doc.Servers[0].Variables["b"].Enum = []string{"v1", "v3"}
+		}
 	}
 	router, err := NewRouter(doc)
 	if err != nil {
@@ -221,6 +228,9 @@ func verifC09Servers(maxLen int) {
 		if reqBase != "" {
 			serverOK, rest = hostOK, path
 			serverVars = map[string]string{"b": reqBase[1:]}
+			if enumOnly && reqBase != "/v1" {
+				serverOK = false // /v2, /v1a: outside the variable's enum [v1, v3]
+			}
 		}
 	}
 	if sv == 3 && reqBase == "" {
@@ -268,7 +278,9 @@ func verifC09Servers(maxLen int) {
 	if route == nil {
 		return
 	}
+	verifKnown("C09-legacy-server-variable-enum-ignored", enumOnly && hostOK && reqBase != "" && reqBase != "/v1")
 	verifAssert(serverOK, "C09 servers: a URL under no declared server is not routed")
+	verifKnown("C09-legacy-server-variable-enum-ignored", false)
 	want, ok := verifRefMatch(route.Path, rest)
 	if !ok && sv == 4 {
 		want, ok = verifRefMatch(route.Path, "/a"+path) // the same URL read under the shorter server
@@ -295,7 +307,7 @@ func verifC09Servers(maxLen int) {
 	verifReach("end")
 }
 
-//verif:harness id=C09 tier=quick witness=end bounds="legacy router under servers in {/v1, https://h.example/v1, https://h.example/{b}, two servers /v1 and /v1/a of which one is a prefix of the other} x request base in {none,/v1,/v2,/v1a} x origin in {https://h.example, other host, http} x 6 template families x GET/POST/PUT x every path '/'+ up to 3 symbolic bytes over {/,a,b,c} after the base"
+//verif:harness id=C09 tier=quick witness=end bounds="legacy router under servers in {/v1, https://h.example/v1, https://h.example/{b}, the same with the variable restricted to an enum, two servers /v1 and /v1/a of which one is a prefix of the other} x request base in {none,/v1,/v2,/v1a} x origin in {https://h.example, other host, http} x 6 template families x GET/POST/PUT x every path '/'+ up to 3 symbolic bytes over {/,a,b,c} after the base"
 func verifH_C09_legacy_servers() { verifC09Servers(4) }
 
 //verif:harness id=C09 tier=thorough witness=end bounds="as quick with paths of up to 5 bytes"
